@@ -46,6 +46,14 @@ def _cp(x):
     return [list(p) if isinstance(p, (list, tuple)) else p for p in x]
 
 
+def _rmw_weight(w):
+    return 0.25 if abs(w - 0.25) > 1e-9 else 0.75
+
+
+def _rmw_coord(c):
+    return 2.5 if abs(c - 2.5) > 1e-9 else -1.5
+
+
 class ViewSystem(object):
     def __init__(self, kind, seed=0):
         self.kind, self.seed = kind, seed
@@ -61,12 +69,14 @@ class ViewSystem(object):
                 ['ctrlpts', 0], ['ctrlpts', 1], ['weights', 0], ['weights', 1],
                 ['ctrlptsw', 0], ['ctrlptsw', 1], ['set_ctrlpts', 0],
                 # data variety: all weights equal (not 1), weights < 0.1 and > 100, negative fractional points
-                ['weights', 2], ['weights', 3], ['ctrlpts', 2]] + \
+                ['weights', 2], ['weights', 3], ['ctrlpts', 2],
+                # read-modify-write: the list a view returned is edited in place and assigned back, the same object
+                ['rmw', 'weights'], ['rmw', 'ctrlpts']] + \
             ([['method', 'reverse']] if self.pd == 1 else [['method', 'transpose']] if self.pd == 2 else [])
 
     def value(self, op):
         k, i = op
-        if k == 'method':
+        if k in ('method', 'rmw'):
             return None
         if k == 'ctrlpts':
             if i == 2:
@@ -86,6 +96,15 @@ class ViewSystem(object):
         if k == 'method':
             # structural edits offered as methods of the object: the three views have to follow together
             getattr(obj, op[1])()
+            return None
+        if k == 'rmw':
+            view = getattr(obj, op[1])
+            j = len(view) // 2
+            if op[1] == 'weights':
+                view[j] = _rmw_weight(view[j])
+            else:
+                view[j][0] = _rmw_coord(view[j][0])
+            setattr(obj, op[1], view)
             return None
         v = copy.deepcopy(self.value(op))
         if k == 'ctrlpts':
@@ -152,6 +171,14 @@ class ViewSystem(object):
                 su, sv = before.cpsize
                 tr = lambda L: [L[v_ + sv * u_] for v_ in range(sv) for u_ in range(su)]
                 ctx.close(base + 'method.transpose.views_follow', [P, W], [tr(p0), tr(w0)], TOL, 1.0, rc, feats)
+        elif op[0] == 'rmw':
+            j = len(w0) // 2
+            ew, ep_ = list(w0), [list(p) for p in p0]
+            if op[1] == 'weights':
+                ew[j] = _rmw_weight(w0[j])
+            else:
+                ep_[j][0] = _rmw_coord(p0[j][0])
+            ctx.close(base + 'read_modify_write.%s.reads_back' % op[1], [P, W], [ep_, ew], TOL, 1.0, rc, feats)
         elif op[0] == 'ctrlpts':
             ctx.close(base + 'set_ctrlpts_view.reads_back', P, v, TOL, 1.0, rc, feats)
             ctx.close(base + 'set_ctrlpts_view.keeps_weights', W, w0, TOL, 1.0, rc, feats)
